@@ -35,6 +35,16 @@
 (*                     entry (p, s) was announced by p itself in the same swarm; the node's own entries in *)
 (*                     an answer are exactly the seeders it currently is an introduction point for.        *)
 (*  P4 PexBounded      at most PexCap (20) learned entries, at most SendCap (10) keys per message.         *)
+(* Deviation constants (all FALSE in the checked configurations; each one switched on is a negative        *)
+(* control that TLC must refute): DupAdd, ExpireUsed, NoGate, ForgetHistory, ExpireNewest, CrossSwarm.     *)
+(* Deliberately NOT demanded (intent unclear, behaviour allowed): several create_e2e calls for one seeder  *)
+(* in one discovery pass (one per listed point); remove_intro_point (peers-request time-out) dropping a    *)
+(* point that carries a connection; an empty DHT answer not moving last_dht_response; entries that stay    *)
+(* listed up to 300 s after their peer stopped announcing.  The network of part P loses and delays         *)
+(* datagrams but does not forge or replay them: a node's own signed introduction request reflected back to *)
+(* it from another address makes the pinned code list itself as a learned point at that address (then the  *)
+(* answer holds (self, s) twice) - noted as an observation, in line with the replay observation of         *)
+(* DESIGN.md section 13, not reported as a violation.                                                      *)
 EXTENDS Integers, Sequences, FiniteSets, TLC
 
 CONSTANTS
@@ -57,7 +67,7 @@ CONSTANTS
   Unload,             \* TRUE: hidden-services life cycle (overlay dropped when it announces nothing any more)
   ExpireNewest,       \* deviation: the expiry loop looks at the newest entry instead of the oldest
   CrossSwarm,         \* deviation: extra bytes of another swarm's overlay are processed as well
-  MaxMsgs             \* bound of the exploration: datagrams in flight
+  MaxMsgs, MaxAnn     \* bounds of the exploration (part P): datagrams in flight, (node, key) pairs ever announced
 
 VARIABLES now,
   (* part S *)
@@ -238,6 +248,11 @@ InitP == /\ pfor = [n \in Nodes |-> <<>>] /\ pips = [n \in Nodes |-> <<>>]
 Samples(f) == LET k == Min(Len(f), SendCap) IN
               {q \in [1..k -> Range(f)] : \A i, j \in 1..k : i # j => q[i] # q[j]}
 
+AllSamples == UNION {{q \in [1..k -> PSeeders] : \A i, j \in 1..k : i # j => q[i] # q[j]} :
+                       k \in 0..Min(Cardinality(PSeeders), SendCap)}
+
+MsgSpace == [src : Nodes, dst : Nodes, k : {"req", "resp"}, pks : AllSamples]
+
 (* process_extra_bytes: each announced key goes to the front with a fresh time stamp; the deque is bounded *)
 RECURSIVE Proc(_, _, _)
 Proc(q, from, pks) ==
@@ -301,14 +316,15 @@ GetIntroPoints(n) ==
 PTick == /\ now < MaxTime /\ now' = now + 1 /\ ret' = NoRet /\ UNCHANGED <<svars, pfor, pips, msgs, ever>>
 
 NextP == \/ \E n \in Nodes, s \in PSeeders : StartAnnounce(n, s) \/ StopAnnounce(n, s)
-         \/ \E n \in Nodes, m \in Nodes : \E pks \in Samples(pfor[n]) : Walk(n, m, pks)
-         \/ \E msg \in msgs : \E pks \in Samples(pfor[msg.dst]) \cup {<<>>} : Deliver(msg, pks)
-         \/ \E msg \in msgs : Lose(msg)
+         \/ \E n \in Nodes, m \in Nodes, pks \in AllSamples : Walk(n, m, pks)
+         \/ \E msg \in MsgSpace, pks \in AllSamples : Deliver(msg, pks)
+         \/ \E msg \in MsgSpace : Lose(msg)
          \/ \E n \in Nodes : GetIntroPoints(n)
          \/ PTick
 
 (* ================================================ specs ================================================ *)
-PConstraint == Cardinality(msgs) <= MaxMsgs
+PConstraint == /\ Cardinality(msgs) <= MaxMsgs
+               /\ SumOver(Nodes, [n \in Nodes |-> Cardinality(ever[n])]) <= MaxAnn
 Init  == now = T0 /\ InitS /\ InitP
 SpecS == Init /\ [][NextS]_vars
 SpecP == Init /\ [][NextP]_vars
